@@ -9,7 +9,7 @@
    name table and checked by the correspondence on every run. *)
 From stdpp Require Import gmap.
 From Coq Require Import ZArith.
-From V Require Import Base.Res.
+From V Require Import Base.Res C16.SatModel C16.FloatMini.
 Open Scope Z_scope.
 
 Inductive nclass :=
@@ -53,10 +53,12 @@ Definition scalar_of (k : positive) (m : Z) : option Z :=
   | _ => None
   end.
 
-(* NewResource: every name occurs once in the list, so each += happens once on a zero field; the
+(* [new_resource_z] / [convert_z]: the conversions on amounts small enough that no float64 / int64 effect
+   shows (exact integers); [new_resource] / [convert] below add those effects.
+   NewResource: every name occurs once in the list, so each += happens once on a zero field; the
    scalar map is allocated lazily by the first AddScalar (nil when nothing is added).
    Second component: MaxTaskNum. *)
-Definition new_resource (rl : rlist) : res * Z :=
+Definition new_resource_z (rl : rlist) : res * Z :=
   let s := map_imap scalar_of rl in
   (mkRes (default 0 (rl !! cpu_name))
          (qvalue (default 0 (rl !! mem_name)))
@@ -68,7 +70,7 @@ Definition new_resource (rl : rlist) : res * Z :=
 Definition quantity_of (k : positive) (v : Z) : Z :=
   if decide (k = pods_name) then 1000 * v else v.
 
-Definition convert (r : res) : rlist :=
+Definition convert_z (r : res) : rlist :=
   map_imap (fun k v => Some (quantity_of k v)) (scm r) ∪
   ({[cpu_name := cpu r]} ∪ {[mem_name := 1000 * mem r]}).
 
@@ -76,12 +78,41 @@ Definition convert (r : res) : rlist :=
 Definition kept_scalar (k : positive) : bool :=
   match name_class k with CPods | CEph | CScalar => true | _ => false end.
 
-Definition float_exact (x : Z) : bool := bool_decide (Z.abs x <= 2 ^ 53).
+(* ---- float64 / int64 effects on large magnitudes ----
+   float64(i) for an int64 i: round to nearest even to 53 significant bits (FloatMini.round_pos; an int64
+   never overflows a float64) *)
+Definition f64 (x : Z) : Z := if 0 <=? x then round_pos x else - round_pos (- x).
+(* the integer x is a float64 value *)
+Definition fexact (x : Z) : bool := f64 x =? x.
+(* int64(f) for an integer-valued float64 f: exact inside the int64 range; outside it the Go spec leaves the
+   result to the implementation — on amd64 (CVTTSD2SI, where this check runs) it is MinInt64, also for the
+   math.MaxFloat64 sentinel.  Modelled as the code behaves here. *)
+Definition i64 (x : Z) : Z := if (min64 <=? x) && (x <=? max64) then x else min64.
 
+Definition map_res (F : Z -> Z) (r : res) : res :=
+  mkRes (F (cpu r)) (F (mem r)) (match sc r with None => None | Some m => Some (F <$> m) end).
+
+(* api.NewResource: every amount read from a Quantity (int64) becomes a float64 *)
+Definition new_resource (rl : rlist) : res * Z :=
+  let '(r, mt) := new_resource_z rl in (map_res f64 r, mt).
+
+(* util.ConvertRes2ResList: every float64 amount goes through int64(f) first *)
+Definition convert (r : res) : rlist := convert_z (map_res i64 r).
+
+(* an amount that both conversions leave alone: a float64-exact integer inside the int64 range, in the
+   unit the code converts (milli-cpu, bytes, whole pods, milli-scalars) *)
+Definition amount_ok (x : Z) : bool := fexact x && bool_decide (Z.abs x < 2 ^ 63).
+Definition res_exact (r : res) : bool :=
+  amount_ok (cpu r) && amount_ok (mem r) &&
+  bool_decide (map_Forall (fun _ v => amount_ok v = true) (scm r)).
+
+(* the domain of Resource -> ResourceList -> Resource *)
 Definition rt_domain (r : res) : bool :=
-  bool_decide (map_Forall (fun k v => kept_scalar k = true /\ float_exact v = true) (scm r)) &&
-  negb (bool_decide (sc r = Some ∅)) &&
-  float_exact (cpu r) && float_exact (mem r).
+  bool_decide (map_Forall (fun k _ => kept_scalar k = true) (scm r)) &&
+  negb (bool_decide (sc r = Some ∅)) && res_exact r.
+
+(* ... and of ResourceList -> Resource -> ResourceList: the amounts NewResource reads are such amounts *)
+Definition rl_exact (rl : rlist) : bool := res_exact (fst (new_resource_z rl)).
 
 (* ---- ResFloat642Quantity / ResQuantity2Float64 (resource_info.go 125-149) ----
    A float64 amount is x / g for the grid g (x an integer, g > 0; g = 1: integral amounts, g = 16: the
